@@ -30,6 +30,7 @@ import (
 	"time"
 
 	"github.com/refraction-networking/conjure/pkg/core"
+	"github.com/refraction-networking/conjure/pkg/phantoms"
 	"github.com/refraction-networking/conjure/pkg/station/liveness"
 	"github.com/refraction-networking/conjure/pkg/transports"
 	"github.com/refraction-networking/conjure/pkg/transports/connecting/dtls"
@@ -612,6 +613,11 @@ type c07Env struct {
 	shares [][]byte
 	// realDetector leaves the registry's own sendToDetector hooks in place (C10)
 	realDetector bool
+	// known, if set, replaces c07KnownGens: the generations of the subnet file that was loaded last
+	// (reload histories); modelSelector, if set, is the harness's own selector for that file, so
+	// that the expected phantom does not depend on what the station made of a reload
+	known         map[int64]bool
+	modelSelector *phantoms.PhantomIPSelector
 }
 
 func c07NewEnv(tb testing.TB, realDetector bool) *c07Env {
@@ -905,7 +911,14 @@ func c07Model(e *c07Env, c c07Case) (c07Expect, error) {
 		// derivation takes any length, so every longer secret is complete (the unchanged station
 		// admits 8..40 bytes alike).
 		complete := m.HasPayload && m.HasSecret && len(m.Secret) >= c07MinSecret
-		genKnown := m.HasPayload && c07KnownGens[m.Gen]
+		knownGens, selector := c07KnownGens, e.rm.PhantomSelector
+		if e.known != nil {
+			knownGens = e.known
+		}
+		if e.modelSelector != nil {
+			selector = e.modelSelector
+		}
+		genKnown := m.HasPayload && knownGens[m.Gen]
 		// the phantom
 		if rr := m.RR; rr != nil {
 			if !v6 && rr.HasV4 && rr.V4 != 0 {
@@ -929,7 +942,7 @@ func c07Model(e *c07Env, c c07Case) (c07Expect, error) {
 			if err != nil {
 				return v, fmt.Errorf("%w: GenSharedKeys: %v", errC07Harness, err)
 			}
-			ph, err := e.rm.PhantomSelector.Select(keys.ConjureSeed, uint(m.Gen), lv, v6)
+			ph, err := selector.Select(keys.ConjureSeed, uint(m.Gen), lv, v6)
 			if err != nil {
 				if lv >= 2 {
 					return v, fmt.Errorf("%w: phantom selection failed for a known generation (gen %d libver %d v6 %v): %v", errC07Harness, m.Gen, lv, v6, err)
